@@ -230,11 +230,17 @@ func judgeUnstaking(r *ev.Run, cr *chaosRun) bool {
 				} else if blockHasEvidence(cr, s.Height) || blockMisses(cr, s.Height, a) {
 					// the node may have been slashed in this block's BeginBlock before its stake was returned in EndBlock
 					r.Count("obs:unstake_payout_not_judged_exactly(node possibly slashed in the same block)", 1)
-					if gain.Cmp(stake) > 0 {
+					if stake.Sign() > 0 && gain.Cmp(new(big.Int).Add(completingTo(prev, s, out), stake)) >= 0 {
+						// a slash can only lower the payout: twice the stake cannot be explained by it
+						viol("node/stake-returned-more-than-once", fmt.Sprintf("node %s finished unstaking %s tokens; its output address %s gained %s in that block (no other transaction touches that address)", a, stake, out, gain), s.Height)
+					} else if gain.Cmp(stake) > 0 {
 						r.Count("obs:output_gained_more_than_stake(block rewards)", 1)
 					}
 				} else if gain.Cmp(stake) < 0 {
 					viol("node/stake-not-returned-to-output", fmt.Sprintf("node %s finished unstaking %s tokens; its output address %s gained %s in that block (no other transaction touches that address)", a, stake, out, gain), s.Height)
+				} else if stake.Sign() > 0 && gain.Cmp(new(big.Int).Add(completingTo(prev, s, out), stake)) >= 0 {
+					// block rewards are orders of magnitude below a stake: a gain of twice the stake or more is a second payout
+					viol("node/stake-returned-more-than-once", fmt.Sprintf("node %s finished unstaking %s tokens; its output address %s gained %s in that block (no other transaction touches that address)", a, stake, out, gain), s.Height)
 				} else if gain.Cmp(stake) != 0 {
 					r.Count("obs:output_gained_more_than_stake(block rewards)", 1)
 				} else {
